@@ -51,7 +51,7 @@ func buildStream(c *Ctx, codec int, maxDocs int) (*stream, *Violation) {
 		case 1:
 			d = genXMLDoc(t, XMLOpts{Seq: true})
 		case 2:
-			d = genJSONDoc(t, JSONOpts{WS: t.Draw(2) == 1, Nulls: true})
+			d = genJSONDoc(t, JSONOpts{WS: t.Draw(2) == 1, Nulls: true, EmptyTop: true})
 		}
 		st := b.Len()
 		b.WriteString(d)
@@ -334,6 +334,33 @@ func execC13(c *Ctx, s *stream, form int, sch *ReadSched, stopAt int, render boo
 		}
 		c.Event("handler ret=%v invs=%d herrs=%d consumed=%d", ret, len(invs), len(herrs), r.Consumed())
 		note("handler returned %v after %d map-handler and %d error-handler invocations; consumed %d of %d", ret, len(invs), len(herrs), r.Consumed(), len(s.data))
+		// known finding: the bulk handlers skip a document that decodes to an empty Map ({}):
+		// 'live' lists the documents the map handler is invoked for on such a tree
+		var live []int
+		for i := range s.docs {
+			if mm, ok := s.model[i].(mxj.Map); ok && len(mm) == 0 {
+				continue
+			}
+			live = append(live, i)
+		}
+		if len(live) != n {
+			if !c.KnownHit("C13-empty-object-skipped", fmt.Sprintf("stream %q", clip(string(s.data), 80))) {
+				live = live[:0]
+				for i := range s.docs {
+					live = append(live, i)
+				}
+			}
+		}
+		n := len(live)
+		complete := complete
+		if faultOff >= 0 {
+			complete = 0
+			for _, i := range live {
+				if s.docs[i].end <= faultOff {
+					complete++
+				}
+			}
+		}
 		want := n
 		if stopAt > 0 && stopAt < n {
 			want = stopAt
@@ -344,8 +371,8 @@ func execC13(c *Ctx, s *stream, form int, sch *ReadSched, stopAt int, render boo
 				return &Violation{"C13.c5-fault-extra/" + tag, fmt.Sprintf("map handler invoked %d times but only %d documents were delivered before the fault at %d", len(invs), complete, faultOff)}
 			}
 			for i, iv := range invs {
-				if Canon(asIface(iv.m)) != Canon(s.model[i]) {
-					return &Violation{"C13.c5-map/" + tag, fmt.Sprintf("handler invocation %d got %s, direct decode gives %s", i+1, clip(Canon(iv.m), 300), clip(Canon(s.model[i]), 300))}
+				if Canon(asIface(iv.m)) != Canon(s.model[live[i]]) {
+					return &Violation{"C13.c5-map/" + tag, fmt.Sprintf("handler invocation %d got %s, direct decode gives %s", i+1, clip(Canon(iv.m), 300), clip(Canon(s.model[live[i]]), 300))}
 				}
 			}
 			wantAll := complete
@@ -368,15 +395,19 @@ func execC13(c *Ctx, s *stream, form int, sch *ReadSched, stopAt int, render boo
 			return &Violation{"C13.c5-count/" + tag, fmt.Sprintf("map handler invoked %d times for %d documents (stop requested at %d)", len(invs), n, stopAt)}
 		}
 		for i, iv := range invs {
-			if v := checkDoc(i, iv.m, iv.raw, form == 3, nil, iv.before, iv.after, false); v != nil {
+			before := iv.before
+			if live[i] > 0 && (i == 0 || live[i-1] != live[i]-1) {
+				before = -1 // skipped empty documents precede this one: the raw start is not comparable
+			}
+			if v := checkDoc(live[i], iv.m, iv.raw, form == 3 && before >= 0, nil, before, iv.after, false); v != nil {
 				v.Clause = strings.Replace(v.Clause, "C13.c", "C13.c5+c", 1)
 				return v
 			}
 		}
-		if want < n || stopAt == n {
+		if want > 0 && (want < n || stopAt == n) {
 			// stopped by the handler: nothing past the next document may be consumed
-			if r.Consumed() > startOf(want) {
-				return &Violation{"C13.c5-stop-overread/" + tag, fmt.Sprintf("handler stopped after document %d but %d bytes were consumed (next document starts at %d)", want, r.Consumed(), startOf(want))}
+			if lim := startOf(live[want-1] + 1); r.Consumed() > lim {
+				return &Violation{"C13.c5-stop-overread/" + tag, fmt.Sprintf("handler stopped after document %d but %d bytes were consumed (next document starts at %d)", want, r.Consumed(), lim)}
 			}
 			c.C["probe.c5_stop_checked"]++
 		}
